@@ -14,7 +14,8 @@ ANCHORS = ['script:Script.parse', 'script:Script.raw_serialize', 'script:Script.
 RULE = ("every element length 0..521 (exhaustive) x 3 byte patterns; every non-push opcode byte (0x00, 0x4e..0xff, exhaustive); "
         "random multi-element scripts; EVERY prefix of every generated serialisation, single-byte corruptions and random byte "
         "strings as a differential against a strict parser; varints at and around 0xfc/0xfd/0xffff/0x10000/0xffffffff/2^32/"
-        "2^64 plus random and every truncation of their encodings; distinct = distinct (monitor, case) digests")
+        "2^64 plus random and every truncation of their encodings; distinct = distinct (monitor, case) digests"
+        " EXTENSIONS: + scripts whose total size sits on the varint thresholds of the length prefix (252/253, 65535/65536/65537, 128 KiB; thorough 16 MiB), elements around 65536 and 2^20 bytes, script histories across refused serialisations")
 LEVEL_TEXT = ("Each raw_serialize / serialize / parse / encode_varint / read_varint execution is compared with an own strict "
               "codec: push opcodes by length class, refusal above 520 bytes, exact round trip; the parser is run as a "
               "differential over all prefixes and corruptions: it must fail whenever the strict parser fails (input that ends "
@@ -309,7 +310,24 @@ def run(ctx):
             if ctx.mine(n):
                 data = b"\x00" * ln if pat == "zeros" else (b"\xff" * ln if pat == "ff" else gen.rbytes(rnd, ln))
                 judge_push_len(ctx, {"data": data, "wrapped": pat == "random"})
-    for ln in (521, 522, 600, 1000, 65535, 65536, 70000):
+    # scripts whose TOTAL raw size sits on the varint thresholds of the length prefix (fc | fd xx xx | fe xx xx xx xx): many
+    # maximal elements, the remainder filled with one smaller push and single-byte opcodes
+    for target in (251, 252, 253, 254, 255, 256, 520, 65534, 65535, 65536, 65537, 65536 + 25, 67993, 131072 + 7) + ((1 << 20, (1 << 24) + 3) if ctx.thorough else ()):
+        n += 1
+        if not ctx.mine(n):
+            continue
+        cmds, size = [], 0
+        while target - size >= 523 + 1:
+            cmds.append(gen.rbytes(rnd, 520))
+            size += 523
+        rest = target - size
+        if rest > 80:
+            ln = min(rest - 3, 520)
+            cmds.append(gen.rbytes(rnd, ln))
+            size += ln + (2 if ln < 256 else 3) if ln > 75 else ln + 1
+        cmds += [0x51] * (target - size)              # OP_1 fillers, one byte each
+        judge_script_roundtrip(ctx, {"cmds": cmds})
+    for ln in (521, 522, 600, 1000, 65535, 65536, 65537, 65536 + 75, 65536 + 76, 65536 + 255, 65536 + 256, 65536 + 520, 65536 + 521, 70000, 131072, 1 << 20):
         n += 1
         if ctx.mine(n):
             judge_push_len(ctx, {"data": b"\x01" * ln})
